@@ -579,13 +579,22 @@ func parseClosure(c *Ctx) []*ast.FuncDecl {
 					for _, t := range cp.Path.Vals {
 						note(t)
 					}
+					for _, f := range cp.Path.Inlined {
+						if f.Name() != "parseVal" {
+							skip[f.Name()] = true // a private helper of that arm, inlined here
+						}
+					}
 				}
 			}
 		}
 	}
 	var visit func(name string)
 	visit = func(name string) {
-		if seen[name] || skip[name] {
+		base := name
+		if i := strings.Index(base, "["); i > 0 {
+			base = base[:i] // an instance of a generic helper goes by the helper's name
+		}
+		if seen[name] || skip[name] || skip[base] {
 			return
 		}
 		seen[name] = true
